@@ -219,8 +219,8 @@ func run(args []string) error {
 	}
 	// loops over slices (Gen/CoinLoops.v, Gen/FeeTxn.v): see loops.go
 	nl := n * 3 / 10
-	if nl > 2500 {
-		nl = 2500
+	if nl > 1200 { // thorough / search tiers: keeps the case file below ~1 MB extra
+		nl = 1200
 	}
 	if nl < 1 {
 		nl = 1
